@@ -7,7 +7,9 @@ from .core import MCU, Sim, HarnessError, VTIME, stream, US
 from .chip import Radio
 from .air import Air, FaultPlan
 
-sys.path.insert(0, "/repo") if "/repo" not in sys.path else None
+import os
+_R = os.environ.get("VERIF_REPO_ROOT", "/repo")
+sys.path.insert(0, _R) if _R not in sys.path else None
 
 import circuitpython_nrf24l01.rf24 as _rf24mod  # noqa: E402
 import circuitpython_nrf24l01.rf24_lite as _litemod  # noqa: E402
